@@ -106,6 +106,43 @@ def run(pid, tier):
                           "ops": v["ops"], "rfault": v["rfault"], "depth": v["d"], "full": v["full"]})
     for dct in diffs:
         dct["full_ok"] = full_ok.get(dct["full"], False)
+    # ---- second half: values written are the values read back (spec/MC_PromelaStore.tla)
+    (rc, out), = run_parallel([tlc_cmd("MC_PromelaStore.tla", "MC_PromelaStore.cfg", os.path.join(wd, "meta.store"), xmx="2g")], timeout=900)
+    p = parse_tlc(out)
+    if not p["ok"]:
+        print(out[-2000:])
+        print("MODEL FAILURE: MC_PromelaStore")
+        sys.exit(2)
+    progs, reads = [], None
+    for line in out.splitlines():
+        if line.startswith('"PROG '):
+            progs.append(json.loads(json.loads(line)[5:]))
+        elif line.startswith('"READS '):
+            reads = json.loads(json.loads(line)[6:])
+    sf = os.path.join(wd, "store.tsv")
+    with open(sf, "w") as f:
+        f.write("R\t" + "\t".join(reads) + "\n")
+        for pr in progs:
+            f.write("P\t" + "\t".join(a["loc"] + "\t" + a["val"] for a in pr["asg"]) + "\n")
+    (rc, o), = run_parallel([[os.path.join(BIN, "fn_replay"), "store", sf]], timeout=2400)
+    if "DONE" not in o:
+        print(o[-1500:])
+        print("HARNESS FAILURE: fn_replay store")
+        sys.exit(2)
+    sres = {}
+    for line in o.splitlines():
+        f = line.split()
+        if f and f[0] == "S" and len(f) >= 4:
+            sres[int(f[1])] = (f[2].split(","), f[3].split(","))
+        elif f and f[0] == "C":
+            sres[int(f[1])] = (["CRASH" + f[2]], [])
+    store_diffs = []
+    for i, pr in enumerate(progs):
+        r = sres.get(i, (["MISSING"], []))
+        eo = ["ok" if x else "ERR" for x in pr["oks"]]
+        if r[0] != eo or r[1] != [str(v) for v in pr["reads"]]:
+            store_diffs.append({"program": pr["asg"], "expected_outcomes": eo, "got_outcomes": r[0],
+                                "reads": reads, "expected_values": pr["reads"], "got_values": r[1]})
     known = [k for k in load_known() if k["property"] == "C17"]
     hits = collections.OrderedDict()
     unexplained = []
@@ -123,6 +160,11 @@ def run(pid, tier):
         with open(rp, "w") as f:
             json.dump({"property": "C17", "kind": "promela", "vectors": unexplained[:300]}, f, indent=1)
         paths.append(rp)
+    if store_diffs:
+        rp = os.path.join(rd, "C17-store.json")
+        with open(rp, "w") as f:
+            json.dump({"property": "C17", "kind": "promela-store", "programs": store_diffs[:300]}, f, indent=1)
+        paths.append(rp)
     for i in range(nsh):
         os.remove(os.path.join(wd, "v%02d.tsv" % i))
     cov = {"evaluations": len(items) * 2, "distinct_nontrivial": len(vecs),
@@ -133,8 +175,10 @@ def run(pid, tier):
            "samples": [{"text": v["min"], "full": v["full"], "expected": v["v"]} for v in vecs[:: max(1, len(vecs) // 6)][:6]],
            "exhaustive": tier != "quick", "tlc_states": states,
            "disagreements": len(diffs), "unexplained": len(unexplained),
+           "store_programs": len(progs), "store_disagreements": len(store_diffs),
+           "store_rule": "all programs of 1-2 assignments over 12 locations (scalars, array elements incl. computed, negative and too large indices; one scalar and one array declared without initial value) x 7 expressions (incl. one that reads an earlier write and one that faults); after each program all 9 locations are read back; expected = PromelaExpr!Eval over the store MC_PromelaStore!Run yields",
            "disagreement_signatures": dict(collections.Counter(signature(d) for d in diffs))}
-    write_evidence(pid, tier, "exploration", cov, time.time() - t0, len(unexplained),
+    write_evidence(pid, tier, "exploration", cov, time.time() - t0, len(unexplained) + len(store_diffs),
                    ["shifts are generated only for operands 0..255 << 0..8 (defined behaviour)",
                     "true/false returned for a comparison at top level are read as 1/0",
                     "left-to-right evaluation of arithmetic operands is only observable when both operands fault differently; not covered"])
